@@ -229,4 +229,10 @@ theorem nested_print_route_clean (env : Env) (he : EnvOk env) (hc : EnvCl env) (
     ∃ q', runScript env (n + 2) newPP (.print args .done) = .ok q' ∧ q'.buf.redactableBytes = q.buf.redactableBytes :=
   nested_print_route env he n args ha q h (doPrint_output_clean env hc (n + 1) _ (listCl_of_valsCl _ hk) q h).2
 
+theorem nested_printf_route_clean (env : Env) (he : EnvOk env) (hc : EnvCl env) (n : Nat) (f : List Byte) (hf : Utf8 f)
+    (args : Vals) (ha : ValsOk args) (hk : ValsCl args) (q : PP) (h : doPrintf env (n + 1) newPP f args.toList = .ok q) :
+    ∃ q', runScript env (n + 2) newPP (.printf f args .done) = .ok q' ∧ q'.buf.redactableBytes = q.buf.redactableBytes :=
+  nested_printf_route env he n f args ha q h
+    (doPrintf_output_clean env hc (n + 1) newPP ci_newPP f hf _ (listCl_of_valsCl _ hk) q h).2
+
 end Redact
